@@ -202,6 +202,80 @@ def _variant_ctor(prog, fdef):
     return None
 
 
+def expand_literal_converters(prog, d):
+    """`x.invalid_err(msg)` / `read_err` / .. on a value that is only ever assigned Some/None/Ok/Err literals in this
+    function (`cond.then_some(v).invalid_err(..)`): the success variant becomes `Ok(payload)` directly, the other one
+    calls the converter on a fresh literal of that variant, which the exit classification knows to be an error."""
+    blocks, locs = d["blocks"], d["locals"]
+    changed = False
+    for bi in range(len(blocks)):
+        b = blocks[bi]
+        if b["cleanup"] or b.get("converter_expanded"):
+            continue
+        t = b["term"]
+        if t["k"] != "call" or t["target"] < 0 or not t["args"] or t["dest"]["proj"]:
+            continue
+        c = _callee(t)
+        if c.rsplit("::", 1)[-1] not in CONVERTERS or "Converter" not in c:
+            continue
+        recv = t["args"][0]
+        if recv.get("k") not in ("copy", "move") or recv["place"]["proj"]:
+            continue
+        # all definitions of the receiver (through one level of moves) are Option / Result literals
+        n = recv["place"]["local"]
+        ds = _def_sites(blocks, n)
+        if len(ds) == 1 and ds[0][1] == "stmt" and ds[0][2]["rv"]["k"] == "use" and ds[0][2]["rv"]["op"].get("k") in ("copy", "move") and not ds[0][2]["rv"]["op"]["place"]["proj"]:
+            ds = _def_sites(blocks, ds[0][2]["rv"]["op"]["place"]["local"])
+        if len(ds) < 2:
+            continue
+        enum = None
+        for _, kind, payload in ds:
+            rv = payload["rv"] if kind == "stmt" else None
+            if rv is None or rv["k"] != "aggregate" or rv["kind"].get("agg") != "adt":
+                enum = None
+                break
+            e = RESULT if rv["kind"]["adt"].endswith("result::Result") else (OPTION if rv["kind"]["adt"].endswith("option::Option") else None)
+            if e is None or (enum is not None and e != enum):
+                enum = None
+                break
+            enum = e
+        if enum is None:
+            continue
+        line = t.get("span", {}).get("l0", 0)
+        span = t.get("span", {"file": "", "l0": line, "l1": line, "exp": False})
+        dest, target = t["dest"], t["target"]
+
+        def new_local(ty, name=""):
+            locs.append({"ty": ty, "name": name})
+            return len(locs) - 1
+        rl = new_local(locs[n]["ty"] if n < len(locs) else "?")
+        b["stmts"].append({"place": {"local": rl, "proj": []}, "rv": {"k": "use", "op": recv}, "line": line})
+        dl = new_local("isize")
+        b["stmts"].append({"place": {"local": dl, "proj": []}, "rv": {"k": "discr", "place": {"local": rl, "proj": []}}, "line": line})
+        okv, badv = ("Ok", "Err") if enum == RESULT else ("Some", "None")
+
+        def pay(var):
+            return {"local": rl, "proj": [{"k": "downcast", "variant": var, "vidx": VIDX[(enum, var)]}, {"k": "field", "idx": 0, "name": "0", "adt": enum, "ty": "?"}]}
+        ok_b = {"cleanup": False, "stmts": [{"place": dest, "rv": {"k": "aggregate", "kind": {"agg": "adt", "adt": RESULT, "variant": "Ok", "vidx": 0, "fields": ["0"]}, "ops": [{"k": "move", "place": pay(okv)}]}, "line": line}],
+                "term": {"k": "goto", "target": target}, "expanded": "converter"}
+        blocks.append(ok_b)
+        ok_i = len(blocks) - 1
+        lit = new_local(locs[n]["ty"] if n < len(locs) else "?")
+        ops = [{"k": "move", "place": pay("Err")}] if enum == RESULT else []
+        bad_t = copy.deepcopy(t)
+        bad_t["args"][0] = {"k": "move", "place": {"local": lit, "proj": []}}
+        bad_b = {"cleanup": False, "stmts": [{"place": {"local": lit, "proj": []}, "rv": {"k": "aggregate", "kind": {"agg": "adt", "adt": enum, "variant": badv, "vidx": VIDX[(enum, badv)], "fields": ["0"] if ops else []}, "ops": ops}, "line": line}],
+                 "term": bad_t, "expanded": "converter", "converter_expanded": True}
+        blocks.append(bad_b)
+        bad_i = len(blocks) - 1
+        dead = {"cleanup": False, "stmts": [], "term": {"k": "unreachable"}}
+        blocks.append(dead)
+        b["term"] = {"k": "switch", "discr": {"k": "move", "place": {"local": dl, "proj": []}}, "targets": [[str(VIDX[(enum, okv)]), ok_i], [str(VIDX[(enum, badv)]), bad_i]], "otherwise": len(blocks) - 1, "span": span}
+        b["converter_expanded"] = True
+        changed = True
+    return changed
+
+
 def expand_combinators(prog, d):
     """rewrites r.map(f) / o.and_then(f) / ... into the match they stand for, with a direct call of the closure (which
     the inliner then splices in).  returns True when something changed."""
@@ -1154,6 +1228,16 @@ class Inliner:
                     d2["blocks"] = copy.deepcopy(f.blocks)
                     d2["locals"] = list(f.locals)
                     if lower_lazy_next(self.prog, d2):
+                        f = Fn(d2, f.crate)
+                        f.program = self.prog
+                        self.prog.fns[p] = f
+                        self.expanded += 1
+                        changed = True
+                if self.expand and any(b["term"]["k"] == "call" and not b["cleanup"] and _callee(b["term"]).rsplit("::", 1)[-1] in CONVERTERS and not b.get("converter_expanded") for b in f.blocks):
+                    d2 = dict(f.d)
+                    d2["blocks"] = copy.deepcopy(f.blocks)
+                    d2["locals"] = list(f.locals)
+                    if expand_literal_converters(self.prog, d2):
                         f = Fn(d2, f.crate)
                         f.program = self.prog
                         self.prog.fns[p] = f
